@@ -11,6 +11,7 @@ import (
 	"go/types"
 	"os"
 	"path/filepath"
+	"regexp"
 	"sort"
 	"strings"
 	"time"
@@ -67,6 +68,7 @@ func typeis[T any](v any) bool          { _, ok := v.(T); return ok }
 func psum[T any](f func(T) Z, s []T, n int) Z { return 0 }
 func isstatus(e error) bool             { return e != nil }
 func lastrand() int64                   { return 0 }
+func haskey[K comparable, V any](m map[K]V, k K) bool { _, ok := m[k]; return ok }
 func statuscode(e error) uint32         { return 0 }
 `
 
@@ -109,6 +111,10 @@ func load(repoDir string, pkgRel []string) (*Loaded, error) {
 			return nil, fmt.Errorf("package %s: %v", p.PkgPath, p.Errors[0])
 		}
 	}
+	droppedClauseLines = map[string]map[int]bool{}
+	round := 0
+retry:
+	round++
 	for _, p := range withContracts {
 		if len(p.Errors) > 0 {
 			return nil, fmt.Errorf("package %s: %v", p.PkgPath, p.Errors[0])
@@ -141,6 +147,36 @@ func load(repoDir string, pkgRel []string) (*Loaded, error) {
 	t0 = time.Now()
 	if err != nil {
 		return nil, err
+	}
+	// a clause that no longer type-checks against the edited code (e.g. a loop invariant that
+	// names a local variable which was removed) is dropped and the load retried: its obligations
+	// are then missing from the run and are reported against the baseline by name, while the
+	// other contracts of the package are still checked
+	if round <= 3 {
+		droppedNow := false
+		packages.Visit(pk2, nil, func(p *packages.Package) {
+			pc := L.Contracts[p.PkgPath]
+			if pc == nil {
+				return
+			}
+			for _, e := range p.Errors {
+				if m := contractErrRe.FindStringSubmatch(e.Error()); m != nil {
+					var ln int
+					fmt.Sscanf(m[1], "%d", &ln)
+					if droppedClauseLines[pc.File] == nil {
+						droppedClauseLines[pc.File] = map[int]bool{}
+					}
+					if !droppedClauseLines[pc.File][ln] {
+						droppedClauseLines[pc.File][ln] = true
+						droppedNow = true
+						fmt.Fprintf(os.Stderr, "gcv: clause at %s:%d does not type-check against the current code and is dropped: %s\n", pc.File, ln, e.Error())
+					}
+				}
+			}
+		})
+		if droppedNow {
+			goto retry
+		}
 	}
 	for _, p := range pk2 {
 		if len(p.Errors) > 0 {
@@ -201,7 +237,13 @@ type genCtx struct {
 	b       strings.Builder
 	n       int
 	bv      bool // current function is `arith bv`: variants are machine ints, not Z
+	file    string
 }
+
+// clauses (by contract file and line) dropped in this load because they no longer type-check
+var droppedClauseLines = map[string]map[int]bool{}
+var contractErrRe = regexp.MustCompile(`zz_verif_contracts\.go:(\d+)`)
+var rangeIndexNameRe = regexp.MustCompile(`^rangeindex(\d*)$`)
 
 func (g *genCtx) qualifier(other *types.Package) string {
 	if other == g.p.Types {
@@ -374,7 +416,8 @@ func (g *genCtx) clauseParams(text string, scope *types.Scope, pos token.Pos, si
 	}
 	var ps []clauseParam
 	for _, name := range freeIdents(e) {
-		if name == "rangeindex" {
+		if rangeIndexNameRe.MatchString(name) {
+			// rangeindex: the clause's own loop; rangeindexK: the K-th loop of the function
 			// the hidden index of a `for range` loop over a slice/array/int: -1 before the first
 			// iteration, k after k+1 iterations have started (loop clauses only)
 			ps = append(ps, clauseParam{Name: name, Type: types.Typ[types.Int], Kind: "rangeindex"})
@@ -422,6 +465,10 @@ func (g *genCtx) clauseParams(text string, scope *types.Scope, pos token.Pos, si
 }
 
 func (g *genCtx) emitClause(c *Clause, prefix string, ps []clauseParam) {
+	if droppedClauseLines[g.file][c.Line] {
+		c.FnSym = ""
+		return
+	}
 	g.n++
 	c.FnSym = fmt.Sprintf("gcvC_%s_%d", prefix, g.n)
 	var parts []string
@@ -439,7 +486,7 @@ func (g *genCtx) emitClause(c *Clause, prefix string, ps []clauseParam) {
 }
 
 func generateSpecFile(p *packages.Package, pc *PkgContracts) (string, error) {
-	g := &genCtx{p: p, imports: map[string]string{}, used: map[string]bool{}}
+	g := &genCtx{p: p, imports: map[string]string{}, used: map[string]bool{}, file: pc.File}
 	for _, imp := range pc.Imports {
 		f := strings.Fields(imp)
 		if len(f) == 2 {
@@ -566,7 +613,13 @@ func generateSpecFile(p *packages.Package, pc *PkgContracts) (string, error) {
 		sort.Ints(ks)
 		for _, k := range ks {
 			if k < 1 || k > len(loops) {
-				return "", fmt.Errorf("%s: func %s has %d loops, clause refers to loop %d", pc.File, fc.Key, len(loops), k)
+				// the loop a clause is attached to no longer exists (the function was restructured):
+				// its obligations are then missing from the run, which the check reports against the
+				// baseline; the rest of the contract is still checked
+				fmt.Fprintf(os.Stderr, "gcv: %s: func %s has %d loops, clauses of loop %d dropped\n", pc.File, fc.Key, len(loops), k)
+				delete(fc.LoopInv, k)
+				delete(fc.LoopDec, k)
+				continue
 			}
 			var lb *ast.BlockStmt
 			switch l := loops[k-1].(type) {
